@@ -114,6 +114,18 @@ def synth_f32(name, frame=False):
     return d
 
 
+def simple_liquid(frame=False):
+    """Table for the simple-liquid wrapper (FlowPropertiesSimple: scaled pseudopressure = pressure itself, diffusivity =
+    1 / (compressibility x viscosity)): a slightly compressible liquid whose c and mu vary smoothly, diffusivity ~ 4..9."""
+    p = np.arange(100.0, 10001.0, 50.0)
+    d = {"pressure": p, "compressibility": 0.05 * (1.0 + 2e-5 * p), "viscosity": 5.0 / (1.0 + 1.2e-4 * p)}
+    if frame:
+        import pandas as pd  # noqa: PLC0415
+
+        return pd.DataFrame(d)
+    return d
+
+
 def synth_desc(name, frame=False):
     """The same exact family with its rows in *descending* pressure order (legal: the wrapper's
     interpolators sort their abscissae)."""
@@ -155,6 +167,18 @@ def alpha_family(name, frame=False):
     return d
 
 
+def alpha_zero(frame=False):
+    """User-alpha table that starts at zero pressure with pseudopressure exactly 0 there (as every table produced by
+    FlowPropertiesTwoPhase.from_table does): a frac-face pressure of exactly 0.0 - a falsy number - is inside the table."""
+    p = np.arange(0.0, 10_000.0 + 5, 10.0)
+    d = {"pressure": p, "pseudopressure": p.copy(), "alpha": _A["A_rise"](p / 10_000.0).astype(float)}
+    if frame:
+        import pandas as pd  # noqa: PLC0415
+
+        return pd.DataFrame(d)
+    return d
+
+
 def alpha_int(frame=False):
     """User-alpha table whose pressure and pseudopressure columns are *integer typed* (legal input:
     the documentation only asks for arrays)."""
@@ -178,11 +202,12 @@ TABLES = {
     "S_ideal": lambda **k: synth("S_ideal", **k), "S_zlin": lambda **k: synth("S_zlin", **k),
     "S_zdip": lambda **k: synth("S_zdip", **k), "S_zdip_desc": lambda **k: synth_desc("S_zdip", **k),
     "S_zdip_f32": lambda **k: synth_f32("S_zdip", **k),
+    "Simple_liquid": simple_liquid,
     "A_const": lambda **k: alpha_family("A_const", **k), "A_rise": lambda **k: alpha_family("A_rise", **k),
     "A_fall": lambda **k: alpha_family("A_fall", **k), "A_kink": lambda **k: alpha_family("A_kink", **k),
     "A_kink1e3": lambda **k: alpha_family("A_kink1e3", **k),
     "A_jump": lambda **k: alpha_family("A_jump", **k),
-    "A_int": alpha_int,
+    "A_int": alpha_int, "A_zero": alpha_zero,
 }
 
 
@@ -213,6 +238,8 @@ def fluid(name, p_i):
 
     from bluebonnet.flow import FlowProperties  # noqa: PLC0415
 
+    if name.startswith("Simple"):  # the simple-liquid wrapper (not exported from bluebonnet.flow)
+        from bluebonnet.flow.flowproperties import FlowPropertiesSimple as FlowProperties  # noqa: PLC0415
     key = (name, float(p_i))
     if key not in _FLUIDS:
         with warnings.catch_warnings():
